@@ -32,6 +32,7 @@ class Recorder:
         self.stepno = {}           # uuid -> step number
         self.raised = False
         self.keep = []             # keep event objects alive so that identities are not reused
+        self.outer_level = 1       # the outer plan that is running (3: the second outer plan of a "renest" scenario)
 
     def deliver(self, event, recv):
         if event is not self.last_event:
@@ -40,7 +41,8 @@ class Recorder:
             self.last_event = event
             self.keep.append(event)
         self.pos += 1
-        level = 2 if self.stepno.get(event.source, 1) >= 100 else 1
+        sn = self.stepno.get(event.source, 1)
+        level = 2 if sn >= 100 else (3 if self.outer_level == 3 else 1)
         self.events.append({"ev": "Deliver", "etype": ETYPE[event.event_type], "step": self.stepno.get(event.source, -1),
                             "level": level, "recv": recv, "code": ""})
         if self.sc["abEm"] == self.em and self.sc["abRc"] == self.pos:
@@ -120,7 +122,7 @@ def _drive(sc, outdir):
         rec.stepno[step] = stepno
         try:
             code = plan.run_step(step, **kw)
-            rec.events.append({"ev": "Return", "etype": "", "step": stepno, "level": 2 if stepno >= 100 else 1,
+            rec.events.append({"ev": "Return", "etype": "", "step": stepno, "level": 2 if stepno >= 100 else (3 if plan is not outer else 1),
                                "recv": {"kind": "", "level": 0, "idx": 0}, "code": exit_name(code)})
             return code
         except PlanAborted:
@@ -129,6 +131,7 @@ def _drive(sc, outdir):
 
     kind = sc["kind"]
     outcome = "ok"
+    outer2 = None
     try:
         if kind == "eval":
             step = outer.add_step("evaluator")
@@ -140,6 +143,7 @@ def _drive(sc, outdir):
                 s2 = outer.add_step("optimizer")
                 run(outer, s2, 2, config=config(sc["K"], sc["maxfun"], outdir))
         else:
+            # ("renest": after the first outer run a second outer plan, with handlers of its own, runs the same inner plan)
             inner = Plan(OptimizerContext(evaluator=evaluator, plugin_manager=pm) if sc.get("twoctx") else ctx)
             for i in range(1, NH + 1):
                 inner.add_handler("rvrec/rec", rec=rec, level=2, idx=i)
@@ -150,10 +154,13 @@ def _drive(sc, outdir):
             def inner_fn(plan, variables):
                 nonlocal refused
                 counter["k"] += 1
-                rec.stepno[istep] = 100 + counter["k"]
+                base = 150 if rec.outer_level == 3 else 100
+                if rec.outer_level == 3 and counter.get("second") is None:
+                    counter["second"] = True; counter["k"] = 1
+                rec.stepno[istep] = base + counter["k"]
                 try:
                     code = plan.run_step(istep, config=config(sc["Kin"], 0, outdir), variables=variables)
-                    rec.events.append({"ev": "Return", "etype": "", "step": 100 + counter["k"], "level": 2,
+                    rec.events.append({"ev": "Return", "etype": "", "step": base + counter["k"], "level": 2,
                                        "recv": {"kind": "", "level": 0, "idx": 0}, "code": exit_name(code)})
                 except PlanAborted:
                     refused += 1
@@ -162,6 +169,13 @@ def _drive(sc, outdir):
             inner.add_function(inner_fn)
             s1 = outer.add_step("optimizer")
             run(outer, s1, 1, config=config(sc["K"], sc["maxfun"], outdir), nested_optimization=inner)
+            if kind == "renest":
+                outer2 = Plan(ctx)
+                for i in range(1, NH + 1):
+                    outer2.add_handler("rvrec/rec", rec=rec, level=3, idx=i)
+                rec.outer_level = 3
+                s2 = outer2.add_step("optimizer")
+                run(outer2, s2, 2, config=config(sc["K"], sc["maxfun"], outdir), nested_optimization=inner)
             aborted_inner = inner.aborted
     except Exception as exc:  # noqa: BLE001 - an escaping exception is the observation
         outcome = f"exc:{type(exc).__name__}"
@@ -169,10 +183,11 @@ def _drive(sc, outdir):
                            "code": outcome})
     trace += rec.events
     trace.append({"ev": "End", "etype": "", "step": 0, "level": 0, "recv": {"kind": "", "level": 0, "idx": 0}, "code": "",
-                  "aborted": [bool(outer.aborted), bool(kind == "nested" and inner.aborted)], "refused": refused})
+                  "aborted": [bool(outer.aborted), bool(kind in ("nested", "renest") and inner.aborted),
+                              bool(kind == "renest" and outer2 is not None and outer2.aborted)], "refused": refused})
     for e in trace[1:]:
-        e.setdefault("aborted", [False, False]); e.setdefault("refused", 0)
-    feats = {"nontrivial": bool(rec.raised and not (sc["abEm"] == 1 and sc["abRc"] == 1)) or kind == "nested",
+        e.setdefault("aborted", [False, False, False]); e.setdefault("refused", 0)
+    feats = {"nontrivial": bool(rec.raised and not (sc["abEm"] == 1 and sc["abRc"] == 1)) or kind in ("nested", "renest"),
              "key": str(sc), "kind": kind, "raised": rec.raised,
              "abort_at_step_event": bool(rec.raised and sc["abEm"] > 0 and any(
                  e["ev"] == "Deliver" and e["etype"] in ("START_STEP", "FINISHED_STEP") for e in rec.events[-1:])),
